@@ -80,6 +80,9 @@ def run(F, R, ctx):
                "of this kind land in different buckets, so an equal key does not find the entry" % v, h.loc(),
                sample={"hash_calls": hc.get(v, ("", []))[1]})
     union_rule(F, R)
+    cross_side_rule(F, R)
+    nested_arm_rule(F, R)
+    visited_rules(F, R)
     for v in sorted(hc):
         R.inst("C11.h", "hash arm %s is implemented" % v, hc[v][0] != "panic",
                "<SteelVal as Hash>::hash panics for SteelVal::%s: using such a value as a key aborts the host" % v, h.loc(),
@@ -108,3 +111,179 @@ def union_rule(F, R):
                "value on duplicate keys, so this ownership arm is right-biased while its siblings are left-biased — "
                "(hash-union a b) returns a different value for a shared key depending on how a and b are owned" % b["line"],
                fn.loc(b["line"]), sample={"receiver": b["args"][0], "argument": b["args"][1] if len(b["args"]) > 1 else ""})
+
+
+def cross_side_rule(F, R):
+    R.rule("C11.c", "equality of keyed collections compares across the two sides: in RecursiveEqualityHandler::visit every "
+                    "membership / lookup call on a hash set or hash map (contains, contains_key, get) whose key comes from "
+                    "iterating one operand is made on the OTHER operand")
+    fn, _ = eq_classes(F)
+    sws = lib.enum_switches(fn, "SteelVal")
+    dom = fn.dominators()
+    tops = [s_ for s_ in sws if not any(o != s_ and o in dom[s_] for o in sws)]
+    pl = fn.blocks[tops[0]]["place"]          # e.g. "_21.0": the matched (left, right) tuple
+    m = re.match(r"(_\d+)\.0", pl.strip("()*"))
+    if not m:
+        raise CheckError("anchor lost: RecursiveEqualityHandler::visit does not match on a (left, right) tuple (%s)" % pl)
+    tup = m.group(1)
+    tl = lib.tainted_locals(fn, [tup + ".0"])
+    tr = lib.tainted_locals(fn, [tup + ".1"])
+    n = 0
+    for i, b in fn.calls():
+        if not (re.search(r"::(contains|contains_key|get)$", b["callee"]) and re.search(r"Hash(Set|Map)", b["callee"])):
+            continue
+        if len(b["args"]) < 2:
+            continue
+        recv = set(lib.TOK.findall(b["args"][0]))
+        key = set(lib.TOK.findall(b["args"][1]))
+        rL, rR = any(x in tl for x in recv), any(x in tr for x in recv)
+        kL, kR = any(x in tl for x in key), any(x in tr for x in key)
+        n += 1
+        same_side = (rL and not rR and kL and not kR) or (rR and not rL and kR and not kL)
+        R.inst("C11.c", "%s at equality site #%d looks the key up on the other operand" % (lib.split_path(b["callee"])[-1], n),
+               not same_side,
+               "RecursiveEqualityHandler::visit calls %s (line %s) on the same operand whose elements it is iterating: the "
+               "test is always true, so any two collections of that kind with the same number of elements compare equal" % (
+                   lib.short_name(b["callee"]), b["line"]), fn.loc(b["line"]),
+               sample={"receiver_from": "left" if rL and not rR else "right" if rR and not rL else "both/unknown",
+                       "key_from": "left" if kL and not kR else "right" if kR and not kL else "both/unknown"})
+    R.floor("C11.c", "keyed-collection lookups in equality", n, 2)
+
+
+def _visit_tree(F):
+    """the (left, right) decision tree of RecursiveEqualityHandler::visit: returns (fn, tuple-local, top switch,
+    pair_arm(lv, rv) -> entry block of the match arm taken for that pair of kinds, header blocks)"""
+    fn, _ = eq_classes(F)
+    sws = lib.enum_switches(fn, "SteelVal")
+    dom = fn.dominators()
+    tops = [s_ for s_ in sws if not any(o != s_ and o in dom[s_] for o in sws)]
+    top = tops[0]
+    m = re.match(r"(_\d+)\.0", fn.blocks[top]["place"].strip("()*"))
+    if not m:
+        raise CheckError("anchor lost: RecursiveEqualityHandler::visit does not match on a (left, right) tuple")
+    tup = m.group(1)
+
+    def pair_arm(lv, rv):
+        b = top
+        for _ in range(64):
+            blk = fn.blocks[b]
+            if blk["k"] == "goto" and len(blk["s"]) == 1:
+                b = blk["s"][0]
+                continue
+            if blk["k"] == "switch" and blk["on"] == "enum:SteelVal" and blk["place"].strip("()*") in (tup + ".0", tup + ".1"):
+                v = lv if blk["place"].strip("()*") == tup + ".0" else rv
+                t = [x for n, x in blk["targets"] if n == v]
+                b = t[0] if t else blk["otherwise"]
+                continue
+            return b
+        raise CheckError("decision tree of RecursiveEqualityHandler::visit too deep")
+    return fn, tup, top, pair_arm, set(dom[top])
+
+
+def nested_arm_rule(F, R):
+    R.rule("C11.n", "nested equality agrees with top-level equality on which kinds are comparable (sibling agreement): every "
+                    "value kind that <SteelVal as PartialEq>::eq compares in a direct (kind, kind) arm also has a (kind, kind) "
+                    "arm in RecursiveEqualityHandler::visit, which is what compares the same two values when they sit inside "
+                    "a list, vector, pair, struct or hash table")
+    pe = F.one(r"^steel::rvals::cycles::\{impl PartialEq<SteelVal> for SteelVal\}::eq$")
+    sws = lib.enum_switches(pe, "SteelVal")
+    if len(sws) < 2:
+        raise CheckError("anchor lost: <SteelVal as PartialEq>::eq does not match on a pair of SteelVals")
+    dom = pe.dominators()
+    top = [s_ for s_ in sws if not any(o != s_ and o in dom[s_] for o in sws)][0]
+    direct = set()
+    tm = lib.arm_map(pe, top)
+    for v, t in tm.items():
+        if v == "_":
+            continue
+        # the arm exists when, below the left test, a test of the other operand for the same kind leads somewhere else
+        # than the catch-all
+        b = t
+        for _ in range(8):
+            blk = pe.blocks[b]
+            if blk["k"] == "goto" and len(blk["s"]) == 1:
+                b = blk["s"][0]
+                continue
+            break
+        blk = pe.blocks[b]
+        if blk["k"] == "switch" and blk["on"] == "enum:SteelVal":
+            nm = lib.arm_map(pe, b)
+            if v in nm and nm[v] != nm.get("_"):
+                direct.add(v)
+        elif v == "Void":
+            direct.add(v)
+    R.floor("C11.n", "direct arms of <SteelVal as PartialEq>::eq", len(direct), 10)
+    fn, tup, top_v, pair_arm, hdr = _visit_tree(F)
+    fall = pair_arm("Void", "BoolV")
+    if pair_arm("IntV", "IntV") == fall:
+        raise CheckError("anchor lost: could not separate the catch-all arm of RecursiveEqualityHandler::visit")
+    for v in sorted(direct):
+        R.inst("C11.n", "kind %s has a nested equality arm" % v, pair_arm(v, v) != fall,
+               "<SteelVal as PartialEq>::eq compares two SteelVal::%s directly, but RecursiveEqualityHandler::visit has no "
+               "(%s, %s) arm and falls into the catch-all `return false`: two equal values of this kind compare equal at "
+               "top level and unequal as soon as they are elements of a container, e.g. (equal? (list x) (list x))" % (v, v, v),
+               fn.loc(), sample=True)
+
+
+def visited_rules(F, R):
+    R.rule("C11.p", "the visited set that cuts repeated work in structural equality is keyed on both operands: at every call "
+                    "in RecursiveEqualityHandler::visit of a method that inserts into RecursiveEqualityHandler.visited, the "
+                    "key arguments derive from the left AND the right value (a key made from one side only makes a sub-value "
+                    "that occurs twice on one side skip its second comparison, whatever it is paired with)")
+    R.rule("C11.v", "finding a pair already visited never makes the comparison fail: from the already-visited outcome of "
+                    "every visited-set test in RecursiveEqualityHandler::visit, control goes on to the next queued pair "
+                    "(back to the loop head), never to a return")
+    fn, tup, top, pair_arm, hdr = _visit_tree(F)
+    # methods of the handler that insert into .visited
+    inserters = []
+    for n, f in F.fns.items():
+        if "{impl RecursiveEqualityHandler" not in n or f is fn:
+            continue
+        wr = any(e[1] == "RecursiveEqualityHandler" and e[2] == "visited" for _, _, e in f.events("fld"))
+        if wr and f.call_blocks(r"HashSet<T,S,A>\}::insert$|::insert$"):
+            inserters.append(n)
+    if not inserters:
+        raise CheckError("anchor lost: no RecursiveEqualityHandler method inserts into .visited")
+    tl = lib.tainted_locals(fn, [tup + ".0"])
+    tr = lib.tainted_locals(fn, [tup + ".1"])
+    sites = [(i, b) for i, b in fn.calls() if b["callee"] in inserters]
+    R.floor("C11.p", "visited-set tests in RecursiveEqualityHandler::visit", len(sites), 7)
+    rets = set(fn.returns())
+    per_line = {}
+    for i, b in sites:
+        toks = set(x for a in b["args"][1:] for x in lib.TOK.findall(a))
+        L = any(x in tl for x in toks)
+        Rr = any(x in tr for x in toks)
+        arm = _arm_of(fn, i, pair_arm, F)
+        per_line.setdefault(arm, []).append((L, Rr, i, b))
+    for arm in sorted(per_line):
+        both = all(L and Rr for L, Rr, _, _ in per_line[arm])
+        R.inst("C11.p", "%s arm: visited key combines both operands" % arm, both,
+               "RecursiveEqualityHandler::visit tests the visited set with a key made from one operand only in the %s arm "
+               "(line %s): when the same sub-value occurs twice on one side, its second occurrence is skipped without being "
+               "compared with its counterpart — (equal? (list v v) (list w1 w2)) is #true as soon as v equals whichever of "
+               "w1, w2 is compared first" % (arm, per_line[arm][0][3]["line"]), fn.loc(per_line[arm][0][3]["line"]),
+               sample={"sides": [("L" if L else "") + ("R" if Rr else "") for L, Rr, _, _ in per_line[arm]]})
+        bad = None
+        for L, Rr, i, b in per_line[arm]:
+            t, f = lib.bool_branch(fn, i)
+            if f is None:
+                continue
+            if rets & fn.reachable_from([f], avoid=hdr):
+                bad = b
+        R.inst("C11.v", "%s arm: an already-visited pair is skipped, not unequal" % arm, bad is None,
+               "in the %s arm of RecursiveEqualityHandler::visit the already-visited outcome of the visited-set test leads "
+               "to a return (line %s) instead of the next pair: a value that occurs twice in the compared structure makes "
+               "equal? answer #false for structurally equal values" % (arm, bad["line"] if bad else "?"),
+               fn.loc(bad["line"] if bad else None), sample=True)
+
+
+def _arm_of(fn, block, pair_arm, F):
+    kinds = [v["name"] for v in F.adt("SteelVal")["variants"]]
+    for v in kinds:
+        e = pair_arm(v, v)
+        if block in fn.reachable_from([e], avoid=set(fn.dominators()[e]) - {e}):
+            dom = fn.dominators()
+            if e in dom[block]:
+                return v
+    return "?"
